@@ -263,6 +263,74 @@ theorem fNext_wSize : fNext (wSize t u v) w = if w = u then lk v else fNext t w 
   · rfl
 end hi
 
+/-! unconditional forms (a write to an out-of-range unit is the identity) — the `simp` set -/
+theorem updLo_out {t : Tab} {u : Int} (h : ¬ InR t u) (v : Nat) : updLo t u v = t := by simp [updLo, h]
+theorem updHi_out {t : Tab} {u : Int} (h : ¬ InR t u) (v : Nat) : updHi t u v = t := by simp [updHi, h]
+
+section uncond
+variable (t : Tab) (u : Int) (b : Bool) (v : Int) (w : Int)
+@[simp] theorem fFree_wFree' : fFree (wFree t u b) w = if w = u ∧ InR t u then b else fFree t w := by
+  by_cases h : InR t u
+  · simp only [fFree_wFree h, h, and_true]
+  · simp [wFree, updLo_out h, h]
+@[simp] theorem fUnc_wFree' : fUnc (wFree t u b) w = fUnc t w := by
+  by_cases h : InR t u
+  · exact fUnc_wFree h b w
+  · simp [wFree, updLo_out h]
+@[simp] theorem fPrev_wFree' : fPrev (wFree t u b) w = fPrev t w := by
+  by_cases h : InR t u
+  · exact fPrev_wFree h b w
+  · simp [wFree, updLo_out h]
+@[simp] theorem fFree_wUnc' : fFree (wUnc t u b) w = fFree t w := by
+  by_cases h : InR t u
+  · exact fFree_wUnc h b w
+  · simp [wUnc, updLo_out h]
+@[simp] theorem fUnc_wUnc' : fUnc (wUnc t u b) w = if w = u ∧ InR t u then b else fUnc t w := by
+  by_cases h : InR t u
+  · simp only [fUnc_wUnc h, h, and_true]
+  · simp [wUnc, updLo_out h, h]
+@[simp] theorem fPrev_wUnc' : fPrev (wUnc t u b) w = fPrev t w := by
+  by_cases h : InR t u
+  · exact fPrev_wUnc h b w
+  · simp [wUnc, updLo_out h]
+@[simp] theorem fFree_wPrev' : fFree (wPrev t u v) w = fFree t w := by
+  by_cases h : InR t u
+  · exact fFree_wPrev h v w
+  · simp [wPrev, updLo_out h]
+@[simp] theorem fUnc_wPrev' : fUnc (wPrev t u v) w = fUnc t w := by
+  by_cases h : InR t u
+  · exact fUnc_wPrev h v w
+  · simp [wPrev, updLo_out h]
+@[simp] theorem fPrev_wPrev' : fPrev (wPrev t u v) w = if w = u ∧ InR t u then lk v else fPrev t w := by
+  by_cases h : InR t u
+  · simp only [fPrev_wPrev h, h, and_true]
+  · simp [wPrev, updLo_out h, h]
+@[simp] theorem fMulti_wMulti' : fMulti (wMulti t u b) w = if w = u ∧ InR t u then b else fMulti t w := by
+  by_cases h : InR t u
+  · simp only [fMulti_wMulti h, h, and_true]
+  · simp [wMulti, updHi_out h, h]
+@[simp] theorem fNext_wMulti' : fNext (wMulti t u b) w = fNext t w := by
+  by_cases h : InR t u
+  · exact fNext_wMulti h b w
+  · simp [wMulti, updHi_out h]
+@[simp] theorem fMulti_wNext' : fMulti (wNext t u v) w = fMulti t w := by
+  by_cases h : InR t u
+  · exact fMulti_wNext h v w
+  · simp [wNext, updHi_out h]
+@[simp] theorem fNext_wNext' : fNext (wNext t u v) w = if w = u ∧ InR t u then lk v else fNext t w := by
+  by_cases h : InR t u
+  · simp only [fNext_wNext h, h, and_true]
+  · simp [wNext, updHi_out h, h]
+@[simp] theorem fMulti_wSize' : fMulti (wSize t u v) w = if w = u ∧ InR t u then true else fMulti t w := by
+  by_cases h : InR t u
+  · simp only [fMulti_wSize h, h, and_true]
+  · simp [wSize, updHi_out h, h]
+@[simp] theorem fNext_wSize' : fNext (wSize t u v) w = if w = u ∧ InR t u then lk v else fNext t w := by
+  by_cases h : InR t u
+  · simp only [fNext_wSize h, h, and_true]
+  · simp [wSize, updHi_out h, h]
+end uncond
+
 /-! ## links -/
 
 /-- decode a stored link: a value above `MAX_UNITS` stands for the head of the list being walked -/
@@ -379,5 +447,69 @@ theorem setFree_ok {t : Tab} {u : Int} {b : Bool} (h : InR t u) (h1 : fMulti t u
           = .ok (wFree (wFree t u true) (u + sizeOf t u - 1) true) := setLo_ok hi _
       simp only [hs, if_true, getLo_ok hi, e3]
     · simp [hs, pure, Except.pure]
+
+/-! fields of `pSetSize` / `pSetFree` -/
+section psets
+variable (t : Tab) (u sz : Int) (b : Bool) (w : Int)
+@[simp] theorem heads_pSetSize : (pSetSize t u sz).heads = t.heads := by unfold pSetSize; split <;> simp
+@[simp] theorem size_pSetSize : (pSetSize t u sz).cells.size = t.cells.size := by unfold pSetSize; split <;> simp
+@[simp] theorem InR_pSetSize : InR (pSetSize t u sz) w ↔ InR t w := by simp [InR]
+@[simp] theorem fFree_pSetSize : fFree (pSetSize t u sz) w = fFree t w := by unfold pSetSize; split <;> simp
+@[simp] theorem fUnc_pSetSize : fUnc (pSetSize t u sz) w = fUnc t w := by unfold pSetSize; split <;> simp
+@[simp] theorem fPrev_pSetSize : fPrev (pSetSize t u sz) w = fPrev t w := by unfold pSetSize; split <;> simp
+@[simp] theorem heads_pSetFree : (pSetFree t u b).heads = t.heads := by unfold pSetFree; split <;> simp
+@[simp] theorem size_pSetFree : (pSetFree t u b).cells.size = t.cells.size := by unfold pSetFree; split <;> simp
+@[simp] theorem InR_pSetFree : InR (pSetFree t u b) w ↔ InR t w := by simp [InR]
+@[simp] theorem fUnc_pSetFree : fUnc (pSetFree t u b) w = fUnc t w := by unfold pSetFree; split <;> simp
+@[simp] theorem fPrev_pSetFree : fPrev (pSetFree t u b) w = fPrev t w := by unfold pSetFree; split <;> simp
+@[simp] theorem fMulti_pSetFree : fMulti (pSetFree t u b) w = fMulti t w := by unfold pSetFree; split <;> simp
+@[simp] theorem fNext_pSetFree : fNext (pSetFree t u b) w = fNext t w := by unfold pSetFree; split <;> simp
+@[simp] theorem sizeOf_pSetFree : sizeOf (pSetFree t u b) w = sizeOf t w := by simp [sizeOf]
+@[simp] theorem nxt_pSetFree (h : Int) : nxt (pSetFree t u b) h w = nxt t h w := by simp [nxt]
+@[simp] theorem prv_pSetFree (h : Int) : prv (pSetFree t u b) h w = prv t h w := by simp [prv]
+end psets
+
+theorem fMulti_pSetSize {t : Tab} {u sz : Int} (h : InR t u) (h1 : sz > 1 → InR t (u + 1) ∧ InR t (u + sz - 1))
+    (w : Int) : fMulti (pSetSize t u sz) w =
+      if sz > 1 then (if w = u ∨ w = u + 1 ∨ w = u + sz - 1 then true else fMulti t w)
+      else (if w = u then false else fMulti t w) := by
+  unfold pSetSize
+  by_cases hs : sz > 1
+  · obtain ⟨ha, hb⟩ := h1 hs
+    simp only [hs, if_true, fMulti_wSize', fMulti_wMulti', InR_wSize, InR_wMulti, h, ha, hb, and_true]
+    by_cases e1 : w = u + sz - 1
+    · simp [e1]
+    · by_cases e2 : w = u + 1
+      · simp [e2]
+      · simp [e1, e2]
+  · simp [hs, h]
+
+theorem fNext_pSetSize {t : Tab} {u sz : Int} (h1 : sz > 1 → InR t (u + 1) ∧ InR t (u + sz - 1))
+    (w : Int) : fNext (pSetSize t u sz) w =
+      if sz > 1 ∧ (w = u + 1 ∨ w = u + sz - 1) then lk sz else fNext t w := by
+  unfold pSetSize
+  by_cases hs : sz > 1
+  · obtain ⟨ha, hb⟩ := h1 hs
+    simp only [hs, if_true, fNext_wSize', fNext_wMulti', InR_wSize, InR_wMulti, ha, hb, and_true, true_and]
+    by_cases e1 : w = u + sz - 1
+    · simp [e1]
+    · by_cases e2 : w = u + 1
+      · simp [e2]
+      · simp [e1, e2]
+  · simp [hs]
+
+theorem fFree_pSetFree {t : Tab} {u : Int} {b : Bool} (h : InR t u)
+    (h2 : sizeOf t u > 1 → InR t (u + sizeOf t u - 1)) (w : Int) :
+    fFree (pSetFree t u b) w = if w = u ∨ (sizeOf t u > 1 ∧ w = u + sizeOf t u - 1) then b else fFree t w := by
+  unfold pSetFree
+  by_cases hs : sizeOf t u > 1
+  · have hb := h2 hs
+    simp only [hs, if_true, fFree_wFree', InR_wFree, h, hb, and_true, true_and]
+    by_cases e1 : w = u + sizeOf t u - 1
+    · simp [e1]
+    · by_cases e2 : w = u
+      · simp [e2]
+      · simp [e1, e2]
+  · simp [hs, h]
 
 end Mmtk.FreeList
